@@ -6,7 +6,7 @@
     check-in of a history that follows the discipline is accepted. *)
 From Coq Require Import ZArith List Bool Arith Lia.
 From Flap Require Import Model.Num Model.Search Model.TripHistory Model.Promises Model.Predictor Model.Engine
-  Proofs.PromisesP Proofs.PromisesFrameP Proofs.TableP Proofs.UpdateAllP Proofs.HistoryP.
+  Proofs.PromisesP Proofs.PromisesFrameP Proofs.TableP Proofs.UpdateAllP Proofs.BackfillP Proofs.HistoryP.
 Import ListNotations.
 Open Scope Z_scope.
 
@@ -102,9 +102,10 @@ Definition x_conforms (c : clock) (e : engine) (x : xev) : Prop :=
   let a := e_admin e in
   let p := a_params a in
   match x with
-  | XCheckin k f now debit => conforms (c k) (get_create e k now) (ECheckin f now (a_pc a) p debit)
+  | XCheckin k f now debit =>
+      0 <= k < 2 ^ 160 /\ conforms (c k) (get_create e k now) (ECheckin f now (a_pc a) p debit)
   | XPlan k fs te now =>
-      pMaxStack p = mx /\
+      0 <= k < 2 ^ 160 /\ pMaxStack p = mx /\
       match plan_args e fs te now with
       | inl (ts, te', d, tr) =>
           conforms (c k) (get_create e k now) (EPlan ts te' d tr now (as_predictor (a_pred a)))
@@ -112,7 +113,6 @@ Definition x_conforms (c : clock) (e : engine) (x : xev) : Prop :=
       end
   | XUpdate now fit =>
       now mod SecondsInDay = 0 /\ 0 <= pThreads p < 256 /\ valid_threads (pThreads p) = true /\
-      keys_ok (e_table e) /\
       forall k t, tget (e_table e) k = Some t -> conforms (c k) t (EUpdate p (share_of e) now)
   | XSetParams _ => True
   end.
@@ -129,19 +129,22 @@ Fixpoint x_all_accepted (e : engine) (xs : list xev) : Prop :=
   | x :: r => x_accepted e x /\ x_all_accepted (x_apply e x) r
   end.
 
-(** every stored record satisfies the traveller-level invariant at its own clock *)
-Definition EJ (c : clock) (e : engine) : Prop := forall k t, tget (e_table e) k = Some t -> J mx (c k) t.
+(** the table has sorted, distinct 160-bit keys and every stored record satisfies the traveller-level
+    invariant at its own clock *)
+Definition EJ (c : clock) (e : engine) : Prop :=
+  keys_sorted (e_table e) /\ forall k t, tget (e_table e) k = Some t -> J mx (c k) t.
 
 Lemma view_J (c : clock) (e : engine) k now : EJ c e -> J mx (c k) (get_create e k now).
 Proof.
-  intros H. unfold get_create. destruct (tget (e_table e) k) as [t|] eqn:Hg; [exact (H k t Hg)|].
+  intros [_ H]. unfold get_create. destruct (tget (e_table e) k) as [t|] eqn:Hg; [exact (H k t Hg)|].
   apply new_traveller_J. exact Hmx.
 Qed.
 
 Lemma EJ_put (c : clock) (e : engine) k v t' a :
-  EJ c e -> J mx v t' -> EJ (upd c k v) {| e_admin := a; e_table := tput (e_table e) k t' |}.
+  0 <= k < 2 ^ 160 -> EJ c e -> J mx v t' -> EJ (upd c k v) {| e_admin := a; e_table := tput (e_table e) k t' |}.
 Proof.
-  intros H Ht k' t Hg. cbn [e_table] in Hg. unfold upd. destruct (Z.eqb_spec k' k) as [->|Hne].
+  intros Hk [Hs H] Ht. split; [cbn [e_table]; apply keys_sorted_tput; assumption|].
+  intros k' t Hg. cbn [e_table] in Hg. unfold upd. destruct (Z.eqb_spec k' k) as [->|Hne].
   - rewrite tget_tput_same in Hg. injection Hg as <-. exact Ht.
   - rewrite tget_tput_other in Hg by exact Hne. exact (H k' t Hg).
 Qed.
@@ -149,7 +152,8 @@ Qed.
 (** an operation that leaves the table alone: moving one traveller's clock forward keeps the invariant *)
 Lemma EJ_tick (c : clock) (e : engine) k v : c k <= v -> EJ c e -> EJ (upd c k v) e.
 Proof.
-  intros Hle H k' t Hg. unfold upd. destruct (Z.eqb_spec k' k) as [->|Hne]; [|exact (H k' t Hg)].
+  intros Hle [Hs H]. split; [exact Hs|].
+  intros k' t Hg. unfold upd. destruct (Z.eqb_spec k' k) as [->|Hne]; [|exact (H k' t Hg)].
   eapply J_mono; [exact Hle|exact (H k t Hg)].
 Qed.
 
@@ -159,12 +163,13 @@ Proof.
   intros HE Hc. cbn zeta in Hc.
   destruct x as [k f now debit|k fs te now|now fit|p]; cbn [x_clock x_accepted x_apply] in *.
   - (* check-in *)
+    destruct Hc as [Hkr Hc].
     pose proof (view_J c e k now HE) as HJ.
     destruct (step_J mx Hmx (c k) _ _ HJ Hc) as [[r Hacc] HJ']. cbn [apply_ev ev_time] in HJ'. rewrite Hacc in HJ'.
     unfold submit_flights. rewrite Hacc. destruct r as [t' pc']. cbn [fst snd].
     split; [reflexivity|]. apply EJ_put; assumption.
   - (* planning *)
-    split; [exact I|]. destruct Hc as [Hstack Hc]. rewrite engine_propose_args.
+    split; [exact I|]. destruct Hc as (Hkr & Hstack & Hc). rewrite engine_propose_args.
     destruct (plan_args e fs te now) as [[[[ts te'] d] tr]|er]; [|exact HE].
     pose proof (view_J c e k now HE) as HJ.
     pose proof Hc as [Hclk _]. cbn [ev_time] in Hclk.
@@ -177,9 +182,11 @@ Proof.
       [|apply EJ_tick; assumption].
     cbn [fst]. apply EJ_put; assumption.
   - (* daily update *)
-    split; [exact I|]. destruct Hc as (Hday & Hth & Hv & Hk & Hall).
-    pose proof (update_all_spec e now fit Hday Hth Hv Hk) as Hs. cbn zeta in Hs.
-    destruct (update_all e now fit) as [[e' ut] r]. destruct Hs as (_ & Hget & _). cbn [fst].
+    split; [exact I|]. destruct Hc as (Hday & Hth & Hv & Hall). destruct HE as [Hks HE].
+    pose proof (update_all_spec e now fit Hday Hth Hv (keys_sorted_ok _ Hks)) as Hs. cbn zeta in Hs.
+    pose proof (update_all_keys_sorted e now fit Hks) as Hks'.
+    destruct (update_all e now fit) as [[e' ut] r]. destruct Hs as (_ & Hget & _). cbn [fst] in *.
+    split; [exact Hks'|].
     intros k t' Hg. rewrite Hget in Hg. destruct (tget (e_table e) k) as [t|] eqn:Ht; [|discriminate].
     cbn [option_map] in Hg. injection Hg as <-.
     destruct (step_J mx Hmx (c k) t _ (HE k t Ht) (Hall k t Ht)) as [_ HJ']. exact HJ'.
@@ -198,6 +205,9 @@ Qed.
 (** from an engine with no travellers yet *)
 Corollary fresh_engine_history_all_accepted xs (c : clock) (a : admin N) :
   x_conforming c {| e_admin := a; e_table := [] |} xs -> x_all_accepted {| e_admin := a; e_table := [] |} xs.
-Proof. apply engine_history_all_accepted. intros k t Hg. discriminate Hg. Qed.
+Proof.
+  apply engine_history_all_accepted. split; [|intros k t Hg; discriminate Hg].
+  split; [constructor|intros k []].
+Qed.
 
 End WithNum.
